@@ -8,7 +8,8 @@ transformation (component / variable / equation order, three renamings) and judg
  (d) values: the generated C and Python are run and compared with the reference values (equation placement, C03).
 Family 'variant': under-/over-constrained and otherwise broken variants of every graph (must be classified as such, with an issue).
   --n=2|3   --edges=K (max read edges, n=3 quick)   --prop=C05"""
-import os, sys, json, shutil, tempfile
+import os
+import re, sys, json, shutil, tempfile
 V = os.path.dirname(os.path.dirname(os.path.abspath(__file__)))
 sys.path.insert(0, os.path.join(V, 'lib'))
 import depgraph as D
@@ -238,8 +239,20 @@ def families(opts):
             if len(set(place)) == 1 and (t.get('perm_comp') and len(t) == 1 or t.get('rename') in (2, 3, 4) or t.get('init_on_twin')):
                 continue  # no second component / no twins: the transformation is the identity
             L = D.Layout(kinds, reads, place, **t)
-            res = r.job({'id': ci, 'doc': L.render(), 'code': not t, 'ast': False})
+            job = {'id': ci, 'doc': L.render(), 'code': not t, 'ast': False}
+            if not t:
+                # afterwards: the same equations listed in the opposite order on the SAME model object, analysed again with the same
+                # analyser, generated with the same generator - must equal what fresh instances produce
+                job['regen_math'] = dict(re.findall(r'<component name="([^"]+)">.*?(<math .*?</math>)', D.Layout(kinds, reads, place, rev_eqs=True).render(), re.S))
+            res = r.job(job)
             ctx.judged += 1
+            rg = res.get('regen')
+            if rg is not None:
+                if rg.get('type_reused_analyser') != rg.get('type_fresh_analyser') or not rg.get('issues_same', True):
+                    rep('history:reused-analyser-differs-from-fresh-analyser-after-the-model-was-edited', {k: rg.get(k) for k in ('type_reused_analyser', 'type_fresh_analyser')}, t)
+                for k in ('c_h_same', 'c_c_same', 'py_same'):
+                    if rg.get(k) is False:
+                        rep('history:reused-generator-differs-from-fresh-generator-after-the-model-was-edited:' + k[:-5], {}, t)
             if 'crash' in res:
                 rep('pipeline-crash:' + res['crash'], {'stderr_tail': res.get('stderr', '')}, t)
                 continue
